@@ -19,14 +19,14 @@ Markers   == {"@", "#", "~", "{", "}", "(", ")", "%", "|", "=", ">", "-", ":", "
 \*  documents written by CookDoc and the repository's recipes can be lexed by the specification too)
 Lower     == {"a", "b", "c", "d", "e", "f", "g", "h", "i", "j", "k", "l", "m", "n", "o", "p", "q", "r", "s", "t", "u", "v", "w", "x", "y", "z"}
 Upper     == {"A", "B", "C", "D", "E", "F", "G", "H", "I", "J", "K", "L", "M", "N", "O", "P", "Q", "R", "S", "T", "U", "V", "W", "X", "Y", "Z"}
-Letters   == Lower \cup Upper \cup {"L2", "E2", "DEG"}     \* char::is_alphabetic
+Letters   == Lower \cup Upper \cup {"L2", "E2", "DEG", "L3", "L4"}     \* char::is_alphabetic (L3, L4: any letter of that UTF-8 width)
 Symbolic  == {"E4", "$", "<", "^", "`"}                      \* not alphabetic, not punctuation, not blank: word characters
 Digits    == {"0", "1", "2", "3", "4", "5", "6", "7", "8", "9"}
 Blanks    == {" ", "TAB", "W2", "W3", "NBSP", "TSP"}         \* is_separator_space or tab
 Puncts    == {"[", "]", ",", "P3", "!", "QUOTE", "'", ";", "_"}   \* char::is_punctuation and no arm of its own ("\" has one: BS)
 Width(c)  == CASE c \in {"L2", "E2", "W2", "NBSP", "DEG"} -> 2
-               [] c \in {"W3", "TSP", "P3"}               -> 3
-               [] c = "E4"                                 -> 4
+               [] c \in {"W3", "TSP", "P3", "L3"}         -> 3
+               [] c \in {"E4", "L4"}                      -> 4
                [] OTHER                                    -> 1
 \* is_word_char: alphabetic, or anything that is not blank, newline, digit, '.', marker, punctuation
 WordChar(c) == c \in Letters \cup Symbolic
